@@ -1054,7 +1054,14 @@ pub fn inputs_c20(r: &mut Rng, n: usize, _tier: &str, out: &mut dyn Write) {
                     2 => *r.pick(&[59i64, 60, 61, 365]).min(&ndays),
                     _ => r.range_i64(1, ndays),
                 };
-                let doy: f64 = match r.below(6) {
+                let small_lim = match r.below(3) { 0 => 1_000, 1 => 100_000, _ => 1_000_000_000 };
+                let dec = *r.pick(&[10.0, 100.0, 1000.0, 4.0, 8.0]);
+                let doy: f64 = match r.below(8) {
+                    // the first instants of the day: 1 ns .. 100 us after midnight (a fraction of 1e-14 .. 1e-9 day), and the
+                    // other scales of smallness up to a second
+                    6 => whole as f64 + (1 + r.below(small_lim)) as f64 / DAY as f64,
+                    // times of day written with few decimals of a day (0.1, 0.25, 0.001 ...)
+                    7 => whole as f64 + ((r.below(1000) as f64) / dec) % 1.0,
                     0 => whole as f64,
                     1 => whole as f64 + 0.5,
                     2 => whole as f64 + (DAY - 1) as f64 / DAY as f64, // last nanosecond of the day (rounded)
